@@ -38,6 +38,7 @@ type Options struct {
 	Namespace         string
 	InsecureUpstream  bool // do not verify origin / upstream certificates
 	CustomLabel       bool // add a per-request label (X-Vf-Id) to the HTTP metrics
+	TLSListener       bool // the proxy listener speaks TLS (self-signed certificate)
 }
 
 // TraceEv is one ProxyTrace event as seen through the verif hook.
@@ -125,6 +126,9 @@ func New(opt Options) (*Rig, error) {
 	cfg.PromNamespace = r.NS
 	cfg.ProxyLocalhost = forwarder.AllowProxyLocalhost
 	cfg.Name = "vfproxy"
+	if opt.TLSListener {
+		cfg.Protocol = forwarder.HTTPSScheme
+	}
 	if opt.ConnectTimeout != 0 {
 		cfg.ConnectTimeout = opt.ConnectTimeout
 	}
